@@ -26,7 +26,7 @@ func init() {
 			"Hull judged by exact orientation tests; rectangles against the exact minimum over all hull-edge-aligned rectangles. non-trivial = hull is a Polygon; distinct by the sorted control point multiset",
 		Assumptions:      []string{"lattice inputs: every orientation and extent is exact (big.Rat); general-position inputs are judged on the covering claims only, within 1e-9*M"},
 		MinNontrivial:    300,
-		RequiredMonitors: []string{"hull-type", "hull-valid", "hull-strict", "hull-subset", "hull-cover", "hull-idem", "hull-perm", "rect-cover", "rect-edge", "rect-min-area", "rect-min-width", "rect-angles"},
+		RequiredMonitors: []string{"hull-type", "hull-valid", "hull-strict", "hull-subset", "hull-cover", "hull-idem", "hull-perm", "rect-cover", "rect-edge", "rect-min-area", "rect-min-width", "rect-angles", "concrete-entry"},
 		Run:              runAll,
 	})
 }
@@ -426,6 +426,7 @@ func pointCase(k *run.K, n int) {
 	if k.Lib("nopanic", func() { h = g.ConvexHull() }) {
 		return
 	}
+	shared.ConcreteAgree(k, g, "concrete-entry", []shared.Call{{Method: "ConvexHull"}}, nil)
 	k.Obs("hull", shared.WKT(h))
 	cps := controlPoints(g)
 	if rank(ps) == 2 {
